@@ -285,10 +285,80 @@ def run(chk):
                         chk.bad('C03-base', where, 'pred-unused:%s' % nm, '%s binds `%s = ..into_refinement()` and reads only %s: the predicate that makes the base type a refinement '
                                 '(I >= 0 for Nat) takes no part in the comparison' % (where, nm, ', '.join('.' + k for k in sorted(field_reads)) or 'nothing'), CMP, n['l'])
     chk.floor('into_refinement() locals in compare.rs', nref, 2)
+    exact_rule(chk, fx)
+    from sa.props.c06 import reduce_rule
+    reduce_rule(chk, fx, 'C03-reduce')
     from sa.props.c32 import combinator_rule
     combinator_rule(chk, fx, rid='C03-comb')      # a refinement written `P and Q` must keep both conjuncts: the subtype test is only as sound as the predicate it is given
     return ('Row-by-row soundness of the comparison-atom arms of Context::is_super_pred_of under the three-orderings model (bodies recognised from typed HIR; the truth table of '
             'TyParamOrdering::is_lt/canbe_le/... is read from the source), and the quantifier structure of the And/Or arms. reduce_preds, Not, General* and unification are not decided.'), {}
+
+
+def exact_rule(chk, fx):
+    """bounds of refinement types are compared with ValueObj::try_cmp: two integers must be compared as integers"""
+    from sa import matcheval as M
+    VAL = 'crates/erg_compiler/ty/value.rs'
+    chk.rule('C03-exact', 'ValueObj::try_cmp (the order behind try_compare of refinement bounds) decides a pair of integer values (Int / Nat in any combination) in an arm that does not '
+                          'convert to f64: through f64, 2^53 and 2^53 + 1 are Equal, `f x: {9007199254740993}` accepts 9007199254740992')
+    f = fx.fn(VAL, 'ValueObj::try_cmp')
+    ms = [m for m in T.walk(f['body']) if m.get('k') == 'Match' and m.get('src') == 'Normal' and T.peel(m['x']).get('k') == 'Tup']
+    if not chk.need(len(ms) >= 1, 'try_cmp: no match over the pair (self, other)'):
+        return
+    m = ms[0]
+
+    def guard_val(g):
+        g = T.peel(g)
+        if g.get('k') == 'Binary' and g['op'] == '&&':
+            a, b = guard_val(g['x']), guard_val(g['y'])
+            return None if a is None or b is None else a and b
+        if g.get('k') == 'MCall' and g['n'] == 'is_num':
+            return True
+        return None
+
+    def lossy(b):
+        for n in T.walk(b):
+            if n.get('k') in ('Call', 'MCall') and 'f64' in (T.callee(n) or '') + T.show(n)[:40]:
+                return T.show(n)[:50]
+            if n.get('k') == 'Cast' and 'f64' in T.show(n):
+                return T.show(n)[:50]
+        return None
+    adt = fx.adt('erg_compiler', 'ty::value::ValueObj')
+    width = {v['n']: v['f'][0]['t'] for v in adt['variants'] if v['n'] in ('Int', 'Nat') and v.get('f')}
+    if not chk.need(set(width) == {'Int', 'Nat'}, 'ValueObj::Int / ValueObj::Nat payload types not found'):
+        return
+    exact_in_f64 = {k: t in ('i8', 'i16', 'i32', 'u8', 'u16', 'u32') for k, t in width.items()}   # 53 bits of mantissa
+    for pair in (('Int', 'Int'), ('Nat', 'Nat'), ('Int', 'Nat'), ('Nat', 'Int')):
+        if all(exact_in_f64[x] for x in pair):
+            chk.ok('C03-exact', '%s,%s' % pair, sample='(%s, %s): %s / %s convert to f64 exactly' % (pair + (width[pair[0]], width[pair[1]])))
+            continue
+        verdict = None
+        for arm in m['arms']:
+            try:
+                hit = M.pat_matches(arm['pat'], pair)
+            except M.Unknown:
+                hit = None
+            if hit is False:
+                continue
+            gv = guard_val(arm['g']) if 'g' in arm else True
+            if hit is None or gv is None:
+                # may match: lossy only matters if it does; keep looking but remember a lossy candidate
+                if lossy(arm['b']):
+                    verdict = ('maybe', arm, lossy(arm['b']))
+                    break
+                continue
+            if gv is False:
+                continue
+            lz = lossy(arm['b'])
+            verdict = ('lossy', arm, lz) if lz else ('exact', arm, None)
+            break
+        key = '%s,%s' % pair
+        if verdict is None:
+            chk.need(False, 'try_cmp: no arm found for the pair (%s)' % key)
+        elif verdict[0] == 'exact':
+            chk.ok('C03-exact', key, sample='(%s): %s' % (key, T.show(verdict[1]['b'])[:60]))
+        else:
+            chk.bad('C03-exact', 'ValueObj::try_cmp', 'pair:' + key, 'try_cmp compares (%s) through `%s`: integers above 2^53 that differ compare Equal, so a refinement bound or singleton '
+                    'is satisfied by a neighbouring value' % (key, verdict[2]), VAL, verdict[1].get('l'))
 
 
 def sym(a):
